@@ -1147,7 +1147,62 @@ pub struct NodeInfo {
     pub tags: BTreeMap<String, Vec<String>>,
 }
 
+/// what a lexical scope entry is, for the l-value path model (C11)
+#[derive(Clone, Copy, Debug, PartialEq)]
+pub enum ScopeKind {
+    Module,
+    /// `complete`: the list (and every enclosing list) is a pure data access chain
+    Item { complete: bool },
+    Other,
+}
+
+/// The model's statement of "the location an expression reads", as a spec the reference renderer evaluates:
+/// segments `{k:'lit',v}` | `{k:'e',e:<ref js>}` | `{k:'scope',i}` | `{k:'cond',e,t,f}`. Data-rooted paths start with the
+/// literal 0 (the runtime's general form); `None` = not an access chain. The flag says whether the chain is purely
+/// data-rooted (the class for which the repository's own tests document that a `model:` binding receives a path).
+pub fn path_spec(e: &Expr, scopes: &[String], kinds: &[ScopeKind]) -> Option<(Vec<Value>, bool)> {
+    match e {
+        Expr::Paren(x) => path_spec(x, scopes, kinds),
+        Expr::Ident(n) => {
+            for (i, s) in scopes.iter().enumerate().rev() {
+                if s == n {
+                    return match kinds.get(i).copied().unwrap_or(ScopeKind::Other) {
+                        ScopeKind::Module => Some((vec![json!({"k":"scope","i":i})], false)),
+                        ScopeKind::Item { complete } => Some((vec![json!({"k":"scope","i":i})], complete)),
+                        ScopeKind::Other => None,
+                    };
+                }
+            }
+            Some((vec![json!({"k":"lit","v":0}), json!({"k":"lit","v":n})], true))
+        }
+        Expr::Member(b, name) => {
+            let (mut p, c) = path_spec(b, scopes, kinds)?;
+            p.push(json!({"k":"lit","v":name}));
+            Some((p, c))
+        }
+        Expr::Index(b, idx) => {
+            let (mut p, c) = path_spec(b, scopes, kinds)?;
+            p.push(json!({"k":"e","e":expr::ref_js(idx, scopes)}));
+            Some((p, c))
+        }
+        Expr::Cond(c, t, f) => {
+            let ts = path_spec(t, scopes, kinds);
+            let fs = path_spec(f, scopes, kinds);
+            if ts.is_none() && fs.is_none() {
+                return None;
+            }
+            let complete = ts.as_ref().map(|x| x.1).unwrap_or(false) && fs.as_ref().map(|x| x.1).unwrap_or(false);
+            Some((
+                vec![json!({"k":"cond","e":expr::ref_js(c, scopes),"t":ts.map(|x| Value::Array(x.0)),"f":fs.map(|x| Value::Array(x.0))})],
+                complete,
+            ))
+        }
+        _ => None,
+    }
+}
+
 struct Jb<'a> {
+    kinds: Vec<ScopeKind>,
     counter: usize,
     info: BTreeMap<String, NodeInfo>,
     file: &'a str,
@@ -1230,6 +1285,12 @@ impl<'a> Jb<'a> {
                 o.insert("capture".into(), json!(c));
                 o.insert("dyn".into(), json!(a.val.as_ref().map(|v| v.is_dynamic()).unwrap_or(false)));
             }
+            if let Some(Val::Bind(e)) = &a.val {
+                if let Some((spec, complete)) = path_spec(e, scopes, &self.kinds) {
+                    o.insert("lv".into(), Value::Array(spec));
+                    o.insert("lvc".into(), json!(complete && a.kind == AttrKind::Model));
+                }
+            }
             self.note(id, format!("{}:{}", ch, name), a.val.as_ref(), scopes);
             out.push(Value::Object(o));
         }
@@ -1258,6 +1319,7 @@ impl<'a> Jb<'a> {
                 let d = scopes.len();
                 for r in &e.slot_refs {
                     scopes.push(r.scope_name());
+                    self.kinds.push(ScopeKind::Other);
                 }
                 let mut generics = Map::new();
                 let attrs = self.attrs(&id, &e.attrs, false, scopes, &mut generics);
@@ -1267,6 +1329,7 @@ impl<'a> Jb<'a> {
                 }
                 let kids = self.nodes(&e.kids, scopes);
                 scopes.truncate(d);
+                self.kinds.truncate(d);
                 json!({"k":"el","id":id,"tag":e.tag,"generics":generics,"attrs":attrs,"slot":slot,"slotRefs":Self::slot_refs_json(&e.slot_refs),"kids":kids})
             }
             Node::If(brs) => {
@@ -1285,18 +1348,29 @@ impl<'a> Jb<'a> {
                 let id = self.id("for");
                 self.note(&id, "list:".into(), Some(&f.list), scopes);
                 let list = val_json(&f.list, scopes);
+                let lp = match &f.list {
+                    Val::Bind(e) => path_spec(e, scopes, &self.kinds),
+                    _ => None,
+                };
                 let d = scopes.len();
                 scopes.push(f.item.clone().unwrap_or_else(|| "item".into()));
                 scopes.push(f.index.clone().unwrap_or_else(|| "index".into()));
+                self.kinds.push(match &lp {
+                    Some((_, c)) => ScopeKind::Item { complete: *c },
+                    None => ScopeKind::Other,
+                });
+                self.kinds.push(ScopeKind::Other);
                 let kids = self.nodes(&f.kids, scopes);
                 scopes.truncate(d);
-                json!({"k":"for","id":id,"list":list,"kids":kids})
+                self.kinds.truncate(d);
+                json!({"k":"for","id":id,"list":list,"listPath":lp.map(|x| Value::Array(x.0)),"kids":kids})
             }
             Node::Block(b) => {
                 let id = self.id("block");
                 let d = scopes.len();
                 for r in &b.slot_refs {
                     scopes.push(r.scope_name());
+                    self.kinds.push(ScopeKind::Other);
                 }
                 let slot = b.slot.as_ref().map(|v| val_json(v, scopes));
                 if let Some(v) = &b.slot {
@@ -1304,6 +1378,7 @@ impl<'a> Jb<'a> {
                 }
                 let kids = self.nodes(&b.kids, scopes);
                 scopes.truncate(d);
+                self.kinds.truncate(d);
                 json!({"k":"block","id":id,"slot":slot,"slotRefs":Self::slot_refs_json(&b.slot_refs),"kids":kids})
             }
             Node::Tis(t) => {
@@ -1326,6 +1401,7 @@ impl<'a> Jb<'a> {
                 let d = scopes.len();
                 for r in &s.slot_refs {
                     scopes.push(r.scope_name());
+                    self.kinds.push(ScopeKind::Other);
                 }
                 let mut generics = Map::new();
                 let attrs = self.attrs(&id, &s.attrs, true, scopes, &mut generics);
@@ -1335,6 +1411,7 @@ impl<'a> Jb<'a> {
                 }
                 let slot = s.slot.as_ref().map(|v| val_json(v, scopes));
                 scopes.truncate(d);
+                self.kinds.truncate(d);
                 json!({"k":"slot","id":id,"name":name,"attrs":attrs,"slot":slot,"slotRefs":Self::slot_refs_json(&s.slot_refs)})
             }
         }
@@ -1353,21 +1430,26 @@ pub fn group_json(g: &Group, tagger: &dyn Fn(&Expr, &[String]) -> Vec<String>) -
     let mut files = Map::new();
     let mut infos = BTreeMap::new();
     for t in &g.files {
-        let mut jb = Jb { counter: 0, info: BTreeMap::new(), file: &t.path, tagger };
+        let mut jb = Jb { kinds: vec![], counter: 0, info: BTreeMap::new(), file: &t.path, tagger };
         let mods: Vec<String> = t.wxs.iter().map(|w| w.module().to_string()).collect();
         let mut named = Map::new();
         for (name, body) in &t.named {
             let mut scopes = mods.clone();
+            jb.kinds = mods.iter().map(|_| ScopeKind::Module).collect();
             named.insert(name.clone(), Value::Array(jb.nodes(body, &mut scopes)));
         }
         let mut scopes = mods.clone();
+        jb.kinds = mods.iter().map(|_| ScopeKind::Module).collect();
         let body = jb.nodes(&t.body, &mut scopes);
         let wxs: Vec<Value> = t
             .wxs
             .iter()
             .map(|w| match w {
-                Wxs::Inline { module, js } => json!({"kind":"inline","name":module,"js":js}),
-                Wxs::Ref { module, src } => json!({"kind":"ref","name":module,"path":pathres::resolve_ref(&t.path, strip_suffix(src, ".wxs"))}),
+                Wxs::Inline { module, js } => json!({"kind":"inline","name":module,"js":js,"lpath":[2, t.path, module]}),
+                Wxs::Ref { module, src } => {
+                    let abs = pathres::resolve_ref(&t.path, strip_suffix(src, ".wxs"));
+                    json!({"kind":"ref","name":module,"path":abs,"lpath":[1, abs]})
+                }
             })
             .collect();
         let imports: Vec<String> = t.imports.iter().map(|i| pathres::resolve_ref(&t.path, strip_suffix(i, ".wxml"))).collect();
